@@ -222,6 +222,41 @@ let () =
                         ro_trash_dir = opt_of_str (sv td); ro_overwrite = bv ow;
                         rs_environ = pairs_of (lv env); rs_uid = nv uid } in
               prun pn (run_oracle (restore_main o) (split_answers answers))
+          | "world" :: nn :: rest ->
+              (* world <n> (path kind)*n <m> (query path)*m (op answer)* : apply the trace to the tree with World.wapply, check the probe
+                 answers with World.wprobe, print what the model has at the queried paths *)
+              let rec take k l acc = if k = 0 then (List.rev acc, l) else (match l with x :: r -> take (k - 1) r (x :: acc) | [] -> failwith "short") in
+              let n = int_of_string nn in
+              let (nodetoks, rest1) = take (2 * n) rest [] in
+              let rec nodes l = match l with
+                | p :: k :: r ->
+                    let nd = (if k = "d" then NDir else if k = "l" then NLink
+                              else if String.length k > 0 && k.[0] = 'f' then NFile (sbody (String.sub k 1 (String.length k - 1)))
+                              else failwith ("bad node " ^ k)) in
+                    (sbody p, nd) :: nodes r
+                | _ -> [] in
+              let assoc = nodes nodetoks in
+              let tbl = Hashtbl.create 257 in
+              List.iter (fun (p, nd) -> Hashtbl.replace tbl p nd) assoc;
+              let w0 = (fun q -> Hashtbl.find_opt tbl q) in
+              (match rest1 with
+               | mm :: rest2 ->
+                   let m = int_of_string mm in
+                   let (qtoks, tr) = take m rest2 [] in
+                   let trace = parse_trace tr in
+                   let rec go s i l = match l with
+                     | [] -> ("ok", s)
+                     | (o, r) :: l' ->
+                         let bad_probe = (match r, wprobe s o with RBool b, Some b' -> b <> b' | _, _ -> false) in
+                         if bad_probe then ("probe:" ^ string_of_int i, s)
+                         else (match wapply s o r with
+                               | Some s' -> go s' (i + 1) l'
+                               | None -> ("outside:" ^ string_of_int i, s)) in
+                   let (verdict, sfin) = go { wfs = w0; wfd = None } 0 trace in
+                   let show q = (match sfin.wfs (sbody q) with
+                                 | None -> "N" | Some NDir -> "d" | Some NLink -> "l" | Some (NFile c) -> "f" ^ ps c) in
+                   verdict ^ "\t" ^ String.concat "," (List.map show qtoks)
+               | [] -> failwith "world: no queries")
           | "monitor" :: name :: param :: trace ->
               let tr = parse_trace trace in
               (match name with
